@@ -192,6 +192,7 @@ type Obligation struct {
 	ClauseGo string
 	vc     *VC
 	st     *State
+	Relaxed bool // candidate-model search: quantified facts dropped (models are validated by replay only)
 }
 
 type ReplayInput struct {
@@ -306,6 +307,7 @@ type VC struct {
 	dry      int
 	dryExits []*State
 	pure     int
+	quiet    int
 }
 
 func (vc *VC) declare(name, sort string) {
@@ -341,6 +343,9 @@ func (vc *VC) pos(n ast.Node) string {
 
 // oblige records an obligation: facts(st) => goal.
 func (vc *VC) oblige(st *State, kind, text, where, goal string, props []string) *Obligation {
+	if vc.quiet > 0 {
+		return nil
+	}
 	vc.counters[kind]++
 	name := fmt.Sprintf("%s/%s/%d", vc.fi.Key, kind, vc.counters[kind])
 	if props == nil {
@@ -352,6 +357,10 @@ func (vc *VC) oblige(st *State, kind, text, where, goal string, props []string) 
 		o.Result = &SolveResult{Status: "unsat", Backend: "syntactic", All: map[string]string{}}
 	}
 	vc.obls = append(vc.obls, o)
+	if strings.HasPrefix(kind, "safe-") || strings.HasPrefix(kind, "pre@") || kind == "chan-capacity" || kind == "chan-close" || kind == "immutable" {
+		// execution continues only if the check passed
+		st.assume(goal)
+	}
 	return o
 }
 
@@ -361,4 +370,21 @@ func (vc *VC) fail(n ast.Node, format string, args ...any) {
 		where = " at " + vc.pos(n)
 	}
 	panic(unsupported(fmt.Sprintf(format, args...) + where + " in " + vc.fi.Key))
+}
+
+func (vc *VC) addBase(f string) {
+	for _, b := range vc.base {
+		if b == f {
+			return
+		}
+	}
+	vc.base = append(vc.base, f)
+}
+
+// litKey names a function literal: "<Outer>$N".
+func (vc *VC) litKey(l *ast.FuncLit) string {
+	if ci, ok := vc.p.byLit[l]; ok {
+		return ci.Key
+	}
+	return fmt.Sprintf("lit@%d", l.Pos())
 }
